@@ -9,7 +9,9 @@ change's property from a private copy of the harness (see ./check), /repo itself
 The result replaces what_was_run.check_runs / detected_by in meta.json (earlier runs are kept under
 earlier_check_runs). Worktree, harness copy and build output are removed afterwards.
 """
-import argparse, concurrent.futures as cf, json, os, shutil, subprocess, sys, time
+import argparse, concurrent.futures as cf, json, os, shutil, subprocess, sys, threading, time
+
+WT_LOCK = threading.Lock()
 
 ENV = dict(os.environ, GOFLAGS="-mod=mod", GOPROXY="off", GOSUMDB="off", GOTOOLCHAIN="local")
 
@@ -23,9 +25,10 @@ def one(change, seeds, tier, also, record):
     pid = change.split("-")[0]
     d = "/verif/seeded/" + change
     wt = "/var/tmp/alt-" + change
-    sh("git -C /repo worktree remove --force %s" % wt)
-    shutil.rmtree(wt, ignore_errors=True)
-    rc, out = sh("git -C /repo worktree add -q --detach %s HEAD" % wt)
+    with WT_LOCK:
+        sh("git -C /repo worktree remove --force %s" % wt)
+        shutil.rmtree(wt, ignore_errors=True)
+        rc, out = sh("git -C /repo worktree add -q --detach %s HEAD" % wt)
     if rc:
         return change, None, "worktree: " + out
     runs = []
@@ -44,8 +47,9 @@ def one(change, seeds, tier, also, record):
                 if rc == 1:
                     break
     finally:
-        sh("git -C /repo worktree remove --force %s" % wt)
-        shutil.rmtree(wt, ignore_errors=True)
+        with WT_LOCK:
+            sh("git -C /repo worktree remove --force %s" % wt)
+            shutil.rmtree(wt, ignore_errors=True)
         shutil.rmtree("/var/tmp/verif-alt/alt-" + change, ignore_errors=True)
     det = sorted({r["check"] for r in runs if r["exit"] == 1})
     if record:
